@@ -28,7 +28,8 @@ def search(drv, seed, tier='quick'):
         if not any(v['fid'] == fid and v['failure'] == failure for v in viols) and len(viols) < 30:
             viols.append(dict(fid=fid, hook=fn, args=[a.hex() for a in args], expected=exp, observed=obs, failure=failure))
     G1g, G2g = Grp('g1'), Grp('g2')
-    pairs = [(1, 1), (2, 3), (R - 1, 5), (rnd.randrange(1, R), rnd.randrange(1, R))]
+    # boundary scalars on BOTH sides (the generator itself and its negative are where caches / shortcuts are keyed)
+    pairs = [(1, 1), (2, 3), (R - 1, 5), (1, R - 1), (R - 1, R - 1), (3, R - 2), (R - 2, 1), (rnd.randrange(1, R), rnd.randrange(1, R))]
     if tier == 'thorough':
         pairs += [(rnd.randrange(1, R), rnd.randrange(1, R)) for _ in range(6)] + [(1 << 64, (1 << 128) + 5), (R - 2, R - 1)]
     oracle = {}
